@@ -161,7 +161,7 @@ Definition alt {A} (e : env) (bs : list (list token * parser A)) : parser A := f
   | None => la_fail e (alt_attempts bs) ts
   end.
 
-(** [parse_delimited]. Also reports whether the list ended with a separator (needed only by the
+(** [parse_delimited] (the loop is cut by [fuel e], which exceeds the number of tokens). Also reports whether the list ended with a separator (needed only by the
     documented-grammar restrictions on [...]). [first] = the attempts of [T::peek]. *)
 Fixpoint delim_loop {A} (n : nat) (e : env) (until : token) (commas : bool) (first : list token)
     (p : parser A) (ts : list lexitem) : pres (list A * bool) :=
@@ -192,7 +192,7 @@ Fixpoint delim_loop {A} (n : nat) (e : env) (until : token) (commas : bool) (fir
 
 Definition delimited {A} (e : env) (until : token) (commas : bool) (first : list token)
     (p : parser A) : parser (list A * bool) := fun ts =>
-  delim_loop (S (length ts)) e until commas first p ts.
+  delim_loop (fuel e) e until commas first p ts.
 
 Definition delimited_items {A} (e : env) (until : token) (commas : bool) (first : list token)
     (p : parser A) : parser (list A) := fun ts =>
@@ -222,47 +222,70 @@ Definition unquote (s : str) : option str :=
   | [] => None
   end.
 
+Definition strlit_of (t : rtoken) : option strlit :=
+  match unquote (ttext t) with
+  | Some v => Some {| s_value := v; s_span := tsp t |}
+  | None => None
+  end.
+
 Definition parse_string (e : env) : parser strlit := fun ts =>
   next_tok e TString ts >>= fun t r =>
-  match unquote (ttext t) with
-  | Some v => POk {| s_value := v; s_span := tsp t |} r
+  match strlit_of t with
+  | Some s => POk s r
   | None => PPanic 3
   end.
 
-(** The [@version] tail of a package token: text after the first [@], parsed by [semver]. *)
-Definition version_of (t : rtoken) (s : str) : pres (option version) :=
+(** The [@version] tail of a package token: text after the first [@], parsed by [semver].
+    [inl]: the version (if any); [inr]: the [InvalidVersion] error. *)
+Definition version_of (t : rtoken) (s : str) : option version + perror :=
   match find_char c_atsign s with
-  | None => POk None []
+  | None => inl None
   | Some at_ =>
       let v := skipn (S at_) s in
       match parse_version v with
-      | Some ver => POk (Some ver) []
+      | Some ver => inl (Some ver)
       | None =>
           let start := off (tsp t) + N.of_nat at_ + 1 in
-          PErr (PE_InvalidVersion v {| off := start; slen := span_end (tsp t) - start |})
+          inr (PE_InvalidVersion v {| off := start; slen := span_end (tsp t) - start |})
       end
   end.
 
-Definition parse_package_name (e : env) : parser package_name := fun ts =>
-  next_tok e TPackageName ts >>= fun t r =>
+Inductive leaf_res (A : Type) : Type := LeafOk (a : A) | LeafErr (e : perror) | LeafPanic (site : N).
+Arguments LeafOk {A}. Arguments LeafErr {A}. Arguments LeafPanic {A}.
+
+(** The body of [PackageName::parse] after the token has been taken. *)
+Definition package_name_of (t : rtoken) : leaf_res package_name :=
   let s := ttext t in
   let name := match find_char c_atsign s with Some at_ => firstn at_ s | None => s end in
-  version_of t s >>= fun ver _ =>
-  POk {| pn_string := s; pn_name := name; pn_version := ver; pn_span := tsp t |} r.
+  match version_of t s with
+  | inl ver => LeafOk {| pn_string := s; pn_name := name; pn_version := ver; pn_span := tsp t |}
+  | inr e => LeafErr e
+  end.
 
-Definition parse_package_path (e : env) : parser package_path := fun ts =>
-  next_tok e TPackagePath ts >>= fun t r =>
+(** The body of [PackagePath::parse] after the token has been taken. *)
+Definition package_path_of (t : rtoken) : leaf_res package_path :=
   let s := ttext t in
   match find_char c_slash s with
-  | None => PPanic 4
+  | None => LeafPanic 4
   | Some slash =>
       let name := firstn slash s in
       let stop := match find_char c_atsign s with Some at_ => at_ | None => length s end in
       let segments := firstn (stop - S slash) (skipn (S slash) s) in
-      version_of t s >>= fun ver _ =>
-      POk {| pp_span := tsp t; pp_string := s; pp_name := name; pp_segments := segments;
-             pp_version := ver |} r
+      match version_of t s with
+      | inl ver => LeafOk {| pp_span := tsp t; pp_string := s; pp_name := name; pp_segments := segments;
+                             pp_version := ver |}
+      | inr e => LeafErr e
+      end
   end.
+
+Definition of_leaf {A} (l : leaf_res A) (r : list lexitem) : pres A :=
+  match l with LeafOk a => POk a r | LeafErr e => PErr e | LeafPanic n => PPanic n end.
+
+Definition parse_package_name (e : env) : parser package_name := fun ts =>
+  next_tok e TPackageName ts >>= fun t r => of_leaf (package_name_of t) r.
+
+Definition parse_package_path (e : env) : parser package_path := fun ts =>
+  next_tok e TPackagePath ts >>= fun t r => of_leaf (package_path_of t) r.
 
 Definition parse_extern_name (e : env) : parser extern_name :=
   alt e [ ([TIdent], fun ts => parse_ident e ts >>= fun i r => POk (ENIdent i) r);
@@ -731,7 +754,7 @@ Definition primary_step (self : parser expr) (e : env) : parser primary_expr :=
 
 Definition expr_step (self : parser expr) (e : env) : parser expr := fun ts =>
   primary_step self e ts >>= fun p r =>
-  postfix_loop (S (length r)) e r >>= fun post r1 =>
+  postfix_loop (fuel e) e r >>= fun post r1 =>
   POk (mk_expr p post) r1.
 
 Fixpoint parse_expr_f (f : nat) (e : env) : parser expr :=
@@ -813,7 +836,7 @@ Fixpoint statements_loop (n : nat) (e : env) (ts : list lexitem) : pres (list st
 Definition parse_document_items (e : env) : parser document := fun ts =>
   let docs := docs_of ts in
   parse_directive e ts >>= fun d r =>
-  statements_loop (S (length r)) e r >>= fun ss r1 =>
+  statements_loop (fuel e) e r >>= fun ss r1 =>
   match r1 with
   | [] => POk {| doc_docs := docs; doc_directive := d; doc_statements := ss |} []
   | _ :: _ => PPanic 9        (* assert!(lexer.next().is_none()) *)
